@@ -93,6 +93,14 @@ Proof.
         subst mp; Z.div_mod_to_equations; lia.
 Qed.
 
+Lemma civil_spec z :
+  let '(y, m, d) := civil_from_days z in
+  1 <= m <= 12 /\ 1 <= d <= month_len y m /\ days_from_civil y m d = z.
+Proof.
+  pose proof (civil_valid z) as V. pose proof (days_civil_inverse z) as I.
+  destruct (civil_from_days z) as [[y m] d]. tauto.
+Qed.
+
 (* ---- format(int, ",") ---- *)
 Definition not_comma (c : Z) : bool := negb (c =? 44).
 
